@@ -1,253 +1,76 @@
 /-
-  C15 — executable form of the transition system for `n` threads (what the driver runs), and its
-  soundness: every executed action is a step of the relation the theorems are about.
+  C15 — executable form of the transition system for `n` threads (what the driver runs, and what
+  the witness schedules of Props.lean are evaluated with), and its soundness: every executed action
+  is a step of the relation the theorems are about.
 -/
-import Vita.C15.Model
+import Vita.C15.Lemmas
 namespace Vita.C15
 
-inductive Act where
-  | fAcquire (t : Tid) (k : Key) | fCheck (t : Tid) | fCopyWord (t : Tid) | fRelease (t : Tid) | fReturn (t : Tid)
-  | wAcquire (t : Tid) (k : Key) (id : Nat) | wKey (t : Tid) | wWord (t : Tid) | wRelease (t : Tid)
-  | cAcquire (t : Tid) | cInvalidate (t : Tid) | cRelease (t : Tid)
-deriving Repr
+/-- `Free` for the threads `0 … n-1` -/
+def freeB (d : Disc) (n : Nat) (th : Tid → T) : LK → Bool
+  | .none => true
+  | .shared => (List.range n).all fun u => lockOf d (th u) != .excl
+  | .excl => (List.range n).all fun u => lockOf d (th u) == .none
 
-def noWriter (n : Nat) (s : S) : Bool := (List.range n).all fun u => !(s.th u).isW
-def noHolder (n : Nat) (s : S) : Bool := (List.range n).all fun u => !(s.th u).holds
-
-/-- `ref = false`: find copies under the lock (StepV); `ref = true`: the reference variant (StepR) -/
-def exec (ref : Bool) (n : Nat) (s : S) : Act → Option S
-  | .fAcquire t k =>
-    if t < n ∧ s.th t = .idle ∧ noWriter n s = true then some { s with th := upd s.th t (.fLocked k) } else none
-  | .fCheck t =>
-    match s.th t with
-    | .fLocked k =>
-      if s.key = some k then some { s with th := upd s.th t (if ref then .rCopy k [] else .fCopy k []) }
-      else some { s with th := upd s.th t (.fMissed k) }
-    | _ => none
-  | .fCopyWord t =>
-    match s.th t with
-    | .fCopy k acc =>
-      if ref then none else
-      match s.words[acc.length]? with
-      | some w => some { s with th := upd s.th t (.fCopy k (acc ++ [w])) }
-      | none => none
-    | .rCopy k acc =>
-      if ref then
-        match s.words[acc.length]? with
-        | some w => some { s with th := upd s.th t (.rCopy k (acc ++ [w])) }
-        | none => none
-      else none
-    | _ => none
-  | .fRelease t =>
-    match s.th t with
-    | .fCopy k acc => if ¬ ref ∧ acc.length = s.L then some { s with th := upd s.th t (.fDone k (some acc)) } else none
-    | .rCopy k acc => if ref ∧ acc.length = s.L then some { s with th := upd s.th t (.fDone k (some acc)) } else none
-    | .fMissed k => some { s with th := upd s.th t (.fDone k none) }
-    | _ => none
-  | .fReturn t =>
-    match s.th t with
-    | .fDone _ _ => some { s with th := upd s.th t .idle }
-    | _ => none
-  | .wAcquire t k id =>
-    if t < n ∧ s.th t = .idle ∧ noHolder n s = true then
-      some { s with th := upd s.th t (.wLocked k id), stored := (k, id) :: s.stored } else none
-  | .wKey t =>
-    match s.th t with
-    | .wLocked k id => some { s with th := upd s.th t (.wWrite k id 0), key := none }
-    | _ => none
-  | .wWord t =>
-    match s.th t with
-    | .wWrite k id i =>
-      if i < s.L then some { s with th := upd s.th t (.wWrite k id (i + 1)), words := s.words.set i (k, id) } else none
-    | _ => none
-  | .wRelease t =>
-    match s.th t with
-    | .wWrite k _ i => if i = s.L then some { s with th := upd s.th t .idle, key := some k } else none
-    | _ => none
-  | .cAcquire t =>
-    if t < n ∧ s.th t = .idle ∧ noHolder n s = true then some { s with th := upd s.th t .cLocked } else none
-  | .cInvalidate t =>
-    match s.th t with
-    | .cLocked => some { s with th := upd s.th t .cCleared, key := none }
-    | _ => none
-  | .cRelease t =>
-    match s.th t with
-    | .cCleared => some { s with th := upd s.th t .idle }
-    | _ => none
+def exec (d : Disc) (c : Cfg) (n : Nat) (s : S) (a : Act) : Option S :=
+  if a.tid < n ∧ freeB d n s.th (acq d a) = true then step1 d c s a else none
 
 /-- threads `n, n+1, …` never run -/
 def Bounded (n : Nat) (s : S) : Prop := ∀ u, n ≤ u → s.th u = .idle
 
-theorem sharedFree_of {n : Nat} {s : S} (hb : Bounded n s) (h : noWriter n s = true) : s.sharedFree := by
-  intro u
-  by_cases hu : u < n
-  · have := List.all_eq_true.mp h u (List.mem_range.mpr hu)
-    simpa using this
-  · rw [hb u (Nat.le_of_not_lt hu)]; rfl
+theorem free_of_freeB {d : Disc} {n : Nat} {s : S} (hb : Bounded n s) (lk : LK)
+    (h : freeB d n s.th lk = true) : Free d s.th lk := by
+  cases lk with
+  | none => trivial
+  | shared =>
+    intro u
+    by_cases hu : u < n
+    · have := List.all_eq_true.mp h u (List.mem_range.mpr hu)
+      simpa using this
+    · rw [hb u (Nat.le_of_not_lt hu)]; simp [lockOf]
+  | excl =>
+    intro u
+    by_cases hu : u < n
+    · have := List.all_eq_true.mp h u (List.mem_range.mpr hu)
+      simpa using this
+    · rw [hb u (Nat.le_of_not_lt hu)]; rfl
 
-theorem exclFree_of {n : Nat} {s : S} (hb : Bounded n s) (h : noHolder n s = true) : s.exclFree := by
-  intro u
-  by_cases hu : u < n
-  · have := List.all_eq_true.mp h u (List.mem_range.mpr hu)
-    simpa using this
-  · rw [hb u (Nat.le_of_not_lt hu)]; rfl
+/-- **exec_sound** — an action the driver executes is a step of `Step`, and the idle tail stays idle -/
+theorem exec_sound {d : Disc} {c : Cfg} {n : Nat} {s s' : S} (hb : Bounded n s) (a : Act)
+    (h : exec d c n s a = some s') : Step d c s s' ∧ Bounded n s' := by
+  simp only [exec] at h
+  split at h
+  · rename_i hg
+    refine ⟨⟨a, free_of_freeB hb _ hg.2, h⟩, ?_⟩
+    obtain ⟨x, hx, _⟩ := step1_th a h
+    intro u hu
+    rw [hx, upd_other _ _ _ _ (Nat.ne_of_gt (Nat.lt_of_lt_of_le hg.1 hu))]
+    exact hb u hu
+  · cases h
 
-/-- **exec_sound** — an action the by-value driver executes is a step of `StepV` -/
-theorem exec_sound {n : Nat} {s s' : S} (hb : Bounded n s) (a : Act) (h : exec false n s a = some s') :
-    StepV s s' := by
-  cases a with
-  | fAcquire t k =>
-    simp only [exec] at h
-    split at h
-    · rename_i hg; cases h
-      exact .common _ _ (.fAcquire _ t k hg.2.1 (sharedFree_of hb hg.2.2))
-    · cases h
-  | fCheck t =>
-    simp only [exec] at h
-    split at h
-    · rename_i k hk
-      split at h
-      · rename_i hkey; cases h; exact .fHit _ t k hk hkey
-      · rename_i hkey; cases h; exact .common _ _ (.fMiss _ t k hk hkey)
-    · cases h
-  | fCopyWord t =>
-    simp only [exec] at h
-    split at h
-    · rename_i k acc hk
-      simp only [Bool.false_eq_true, if_false] at h
-      split at h
-      · rename_i w hw; cases h; exact .fCopyWord _ t k acc w hk hw
-      · cases h
-    · simp at h
-    · cases h
-  | fRelease t =>
-    simp only [exec] at h
-    split at h
-    · rename_i k acc hk
-      split at h
-      · rename_i hg; cases h; exact .fRelease _ t k acc hk hg.2
-      · cases h
-    · simp at h
-    · rename_i k hk; cases h; exact .common _ _ (.fMissRelease _ t k hk)
-    · cases h
-  | fReturn t =>
-    simp only [exec] at h
-    split at h
-    · rename_i k r hk; cases h; exact .common _ _ (.fReturn _ t k r hk)
-    · cases h
-  | wAcquire t k id =>
-    simp only [exec] at h
-    split at h
-    · rename_i hg; cases h
-      exact .common _ _ (.wAcquire _ t k id hg.2.1 (exclFree_of hb hg.2.2))
-    · cases h
-  | wKey t =>
-    simp only [exec] at h
-    split at h
-    · rename_i k id hk; cases h; exact .common _ _ (.wKey _ t k id hk)
-    · cases h
-  | wWord t =>
-    simp only [exec] at h
-    split at h
-    · rename_i k id i hk
-      split at h
-      · rename_i hi; cases h; exact .common _ _ (.wWord _ t k id i hk hi)
-      · cases h
-    · cases h
-  | wRelease t =>
-    simp only [exec] at h
-    split at h
-    · rename_i k id i hk
-      split at h
-      · rename_i hi; cases h; subst hi; exact .common _ _ (.wRelease _ t k id hk)
-      · cases h
-    · cases h
-  | cAcquire t =>
-    simp only [exec] at h
-    split at h
-    · rename_i hg; cases h
-      exact .common _ _ (.cAcquire _ t hg.2.1 (exclFree_of hb hg.2.2))
-    · cases h
-  | cInvalidate t =>
-    simp only [exec] at h
-    split at h
-    · rename_i hk; cases h; exact .common _ _ (.cInvalidate _ t hk)
-    · cases h
-  | cRelease t =>
-    simp only [exec] at h
-    split at h
-    · rename_i hk; cases h; exact .common _ _ (.cRelease _ t hk)
-    · cases h
-
-theorem upd_ne (th : Tid → T) (t x u) (h : u ≠ t) : upd th t x u = th u := by simp [upd, h]
-
-def Act.tid : Act → Tid
-  | .fAcquire t _ | .fCheck t | .fCopyWord t | .fRelease t | .fReturn t | .wAcquire t _ _ | .wKey t | .wWord t
-  | .wRelease t | .cAcquire t | .cInvalidate t | .cRelease t => t
-
-/-- an action only changes the state of its own thread -/
-theorem exec_th {ref : Bool} {n : Nat} {s s' : S} (a : Act) (h : exec ref n s a = some s') :
-    ∃ x, s'.th = upd s.th a.tid x := by
-  cases a <;> simp only [exec] at h <;> repeat' split at h
-  all_goals first
-    | (cases h; exact ⟨_, rfl⟩)
-    | cases h
-
-theorem exec_live {ref : Bool} {n : Nat} {s s' : S} (hb : Bounded n s) (a : Act) (h : exec ref n s a = some s') :
-    a.tid < n := by
-  rcases Nat.lt_or_ge a.tid n with hlt | hge
-  · exact hlt
-  · exfalso
-    have hidle := hb _ hge
-    cases a with
-    | fAcquire t k =>
-      simp only [exec] at h; split at h
-      · rename_i hg; exact Nat.lt_irrefl _ (Nat.lt_of_lt_of_le hg.1 hge)
-      · cases h
-    | wAcquire t k id =>
-      simp only [exec] at h; split at h
-      · rename_i hg; exact Nat.lt_irrefl _ (Nat.lt_of_lt_of_le hg.1 hge)
-      · cases h
-    | cAcquire t =>
-      simp only [exec] at h; split at h
-      · rename_i hg; exact Nat.lt_irrefl _ (Nat.lt_of_lt_of_le hg.1 hge)
-      · cases h
-    | fCheck t => simp only [Act.tid] at hidle; simp [exec, hidle] at h
-    | fCopyWord t => simp only [Act.tid] at hidle; simp [exec, hidle] at h
-    | fRelease t => simp only [Act.tid] at hidle; simp [exec, hidle] at h
-    | fReturn t => simp only [Act.tid] at hidle; simp [exec, hidle] at h
-    | wKey t => simp only [Act.tid] at hidle; simp [exec, hidle] at h
-    | wWord t => simp only [Act.tid] at hidle; simp [exec, hidle] at h
-    | wRelease t => simp only [Act.tid] at hidle; simp [exec, hidle] at h
-    | cInvalidate t => simp only [Act.tid] at hidle; simp [exec, hidle] at h
-    | cRelease t => simp only [Act.tid] at hidle; simp [exec, hidle] at h
-
-theorem exec_bounded {ref : Bool} {n : Nat} {s s' : S} (hb : Bounded n s) (a : Act)
-    (h : exec ref n s a = some s') : Bounded n s' := by
-  intro u hu
-  obtain ⟨x, hx⟩ := exec_th a h
-  have := exec_live hb a h
-  have hne : u ≠ a.tid := Nat.ne_of_gt (Nat.lt_of_lt_of_le this hu)
-  rw [hx, upd_ne _ _ _ _ hne]
-  exact hb u hu
-
-def execs (ref : Bool) (n : Nat) (s : S) : List Act → Option S
+def execs (d : Disc) (c : Cfg) (n : Nat) (s : S) : List Act → Option S
   | [] => some s
-  | a :: as => match exec ref n s a with
-    | some s' => execs ref n s' as
+  | a :: as => match exec d c n s a with
+    | some s' => execs d c n s' as
     | none => none
 
-/-- whatever sequence of actions the by-value driver executes from the initial state, the state
-    it is in is reachable in `StepV`: `lookup_returns_stored` speaks about the driver's answers -/
-theorem execs_reach {n L : Nat} {s s' : S} (hr : Reach StepV (S.init L) s) (hb : Bounded n s) (as : List Act)
-    (h : execs false n s as = some s') : Reach StepV (S.init L) s' ∧ Bounded n s' := by
+theorem execs_reach {d : Disc} {c : Cfg} {n : Nat} {s s' : S} (hr : Reach d c s) (hb : Bounded n s) (as : List Act)
+    (h : execs d c n s as = some s') : Reach d c s' ∧ Bounded n s' := by
   induction as generalizing s with
   | nil => simp only [execs, Option.some.injEq] at h; subst h; exact ⟨hr, hb⟩
   | cons a as ih =>
     simp only [execs] at h
     split at h
     · rename_i s1 h1
-      exact ih (Reach.tail _ _ hr (exec_sound hb a h1)) (exec_bounded hb a h1) h
+      have := exec_sound hb a h1
+      exact ih (Reach.step _ _ hr this.1) this.2 h
     · cases h
+
+theorem bounded_init (c : Cfg) (n : Nat) : Bounded n (S.init c) := fun _ _ => rfl
+
+/-- a schedule that the executable model runs from the initial state ends in a reachable state -/
+theorem reach_of_execs {d : Disc} {c : Cfg} {n : Nat} {as : List Act} {s : S}
+    (h : execs d c n (S.init c) as = some s) : Reach d c s :=
+  (execs_reach Reach.init (bounded_init c n) as h).1
 
 end Vita.C15
